@@ -1073,6 +1073,9 @@ class Table(Vector):
 			# (a string is one cell, a mapping has no column order: neither is a row of cells - zip would
 			# spread the characters / the KEYS over the columns)
 			raise SerifTypeError("Cannot append a scalar or a mapping to a table; give one item (or sequence of cells) per column.")
+		if isinstance(other, Iterator):
+			# (a generator of items has no len(): taken as the list of them, as generator << table does)
+			other = list(other)
 		if len(self.cols()) != len(other):
 			raise ValueError(f"Column count mismatch: {len(self.cols())} != {len(other)}")
 		return self._named_like_self(tuple(x << y for x, y in zip(self.cols(), other, strict=True)))
